@@ -167,3 +167,20 @@ def f_raise(kind, *args):
 
 def f_custom(a):
     return Custom(a, {'a': a})
+
+
+# ---- C20: an argument whose unpickling kills the process that rebuilds it (the remote backend child,
+# before it reported its identity). Pickled by reference to `_bomb_build`.
+def _bomb_build(parent_guard):
+    import os
+    if os.getpid() != parent_guard:
+        os._exit(7)
+    return Bomb(parent_guard)
+
+
+class Bomb:
+    def __init__(self, guard):
+        self.guard = guard
+
+    def __reduce__(self):
+        return (_bomb_build, (self.guard,))
